@@ -39,7 +39,14 @@ KINDS = {0: "request proxied to the upstream", 1: "login (callback waiting for t
          3: "session refresh (waiting for the token endpoint)", 4: "logout"}
 
 
+# the deployment's OpenTelemetry tracing (harness/cmd/wwh/shutdown.go: sdOtel*); the property holds for every deployment
+TRACING = {0: "off", 1: "on, collector unreachable (OTEL_EXPORTER_OTLP_ENDPOINT = a closed local port)",
+           2: "on, collector accepts connections and never answers"}
+
+
 def status_text(code):
+    if code == -1000:
+        return "still running 8 s after the end of the graceful period (then killed by the harness)"
     if code < 0 and code != -1000:
         return "killed by signal %d%s" % (-code, " (%s)" % TERMINATION[-code] if -code in TERMINATION else "")
     return "exit status %d" % code
@@ -58,10 +65,11 @@ def parse(infile, implfile, modelfile):
             sig_kind = [int(x) for x in rest[3].split()] if len(rest) > 3 else [15]
             sync = [int(x) for x in rest[4].split()] if len(rest) > 4 else [0] * len(arr)
             kinds = [int(x) for x in rest[5].split()] if len(rest) > 5 else [0] * len(arr)
+            tracing = int(rest[6].split()[0]) if len(rest) > 6 and rest[6].split() else 0
             n = len(arr)
             m = [int(x) for x in lm.split()]
             base = {"input": li.strip(), "impl": la.strip(), "model": lm.strip(), "W": W, "G": G, "arr": arr, "svc": svc,
-                    "sig_at": sig_at, "sig_kind": sig_kind, "sync": sync, "kinds": kinds, "m_started": m[0], "robust": True}
+                    "sig_at": sig_at, "sig_kind": sig_kind, "sync": sync, "kinds": kinds, "tracing": tracing, "m_started": m[0], "robust": True}
             if la.startswith("R"):
                 base.update({"refused": True, "ref_class": int(la.split()[1])})
                 rows.append(base)
@@ -78,7 +86,7 @@ def parse(infile, implfile, modelfile):
             http = [int(x) for x in a[6].split()] if len(a) > 6 else [0] * n
             late = max([abs(x - y) for x, y in zip(starts, arr)] + [abs(x - y) for x, y in zip(sent, sig_at)] + [0])
             rows.append({"input": li.strip(), "impl": la.strip(), "model": lm.strip(), "W": W, "G": G, "arr": arr, "svc": svc,
-                         "sig_at": sig_at, "sig_kind": sig_kind, "sync": sync, "kinds": kinds, "http": http, "robust": (m[4 + 2 * n] == 1) if len(m) > 4 + 2 * n else True,
+                         "sig_at": sig_at, "sig_kind": sig_kind, "sync": sync, "kinds": kinds, "tracing": tracing, "http": http, "robust": (m[4 + 2 * n] == 1) if len(m) > 4 + 2 * n else True,
                          "driver_late_ns": late, "starts": starts, "refused": False, "m_started": 0 if model_refused_only else 1, "model_refused_only": model_refused_only,
                          "exit": exit_ns, "code": exit_code, "acc": acc, "comp": comp, "ends": ends,
                          "m_close": m[0], "m_deadline": m[1], "m_exit": m[2], "m_code": m[3],
@@ -163,9 +171,10 @@ def monitor(ctx, rows, notes):
                 "requests_(arrival_ns,service_ns)": list(zip(r["arr"], r["svc"])),
                 "request_kinds": [KINDS.get(k, str(k)) for k in r["kinds"]],
                 "signals_(instant_ns,number)": list(zip(r["sig_at"], r["sig_kind"])),
+                "deployment_tracing": TRACING.get(r["tracing"], str(r["tracing"])),
                 "observed": {"exit_ns": r["exit"], "exit_status": r["code"], "status": status_text(r["code"]), "accepted": r["acc"],
                              "completed": r["comp"], "end_ns": r["ends"], "http_status": r["http"]}}
-        sig.add((W, G, tuple(r["acc"]), tuple(r["comp"]), r["code"], tuple(r["sig_kind"]), tuple(a < W for a in r["sig_at"][1:]), tuple(r["kinds"])))
+        sig.add((W, G, tuple(r["acc"]), tuple(r["comp"]), r["code"], tuple(r["sig_kind"]), tuple(a < W for a in r["sig_at"][1:]), tuple(r["kinds"]), r["tracing"]))
         # the property speaks about termination signals; a scenario that also sends a signal no process can act on
         # (SIGKILL: the driver's control that a killed process is observed as such) is outside it
         if any(k not in TERMINATION for k in r["sig_kind"]):
@@ -178,9 +187,15 @@ def monitor(ctx, rows, notes):
             nsig, ", ".join("%s at %.2f s" % (TERMINATION[k], t / SEC) for t, k in zip(r["sig_at"], r["sig_kind"])))
         # always terminates in time
         if r["exit"] > G + TOL:
-            key = "negative-wait-before-exceeds-graceful" if W < 0 else "exit-after-graceful-period"
-            ctx.violation(key, "the process exited %.2f s after the signal; graceful period %.2f s (wait-before %.2f s)"
-                          % (r["exit"] / SEC, G / SEC, W / SEC), case)
+            # (two stable names, by which way out the process was on: everything accepted had completed = the successful way out;
+            # otherwise the forced one at the deadline. Both are the same clause.)
+            # (by the PLAN: a process that outlives the deadline may well answer, late, a request that could not complete in time)
+            drained = all(a + d <= G for a, d, acc in zip(r["arr"], r["svc"], r["acc"]) if acc)
+            key = "negative-wait-before-exceeds-graceful" if W < 0 else "drained-but-exit-after-graceful-period" if drained else "exit-after-graceful-period"
+            still = " (it was still running %.0f s after the end of the graceful period and was killed by the harness)" % ((r["exit"] - G) / SEC) if r["code"] == -1000 else ""
+            ctx.violation(key, "the process exited %.2f s after the signal; graceful period %.2f s (wait-before %.2f s); tracing %s; %s%s"
+                          % (r["exit"] / SEC, G / SEC, W / SEC, TRACING.get(r["tracing"], "?"),
+                             "every accepted request completed within the graceful period" if drained else "an accepted request could not complete within the graceful period: the forced exit was due at its end", still), case)
         if W < 0:
             continue
         # keeps serving for the configured wait-before period: the process is still there when it ends
@@ -220,7 +235,7 @@ def monitor(ctx, rows, notes):
             if r["code"] != 0:
                 # (status 1 = the log.Fatalf of the deadline watcher; a process that was killed by a signal, or failed in another
                 # way, is a different failure and gets its own key)
-                ctx.violation("drained-but-exit-status-failure" if r["code"] == 1 else
+                ctx.violation("drained-but-exit-status-failure" if r["code"] == 1 else "drained-but-still-running" if r["code"] == -1000 else
                               "drained-but-killed-by-signal" if r["code"] < 0 else "drained-but-exit-status-other",
                               "every accepted request completed (the last at %.2f s, graceful period %.2f s) but the process did not exit successfully: %s at %.2f s%s"
                               % (last / SEC, G / SEC, status_text(r["code"]), r["exit"] / SEC, more), case)
@@ -229,7 +244,8 @@ def monitor(ctx, rows, notes):
             # So: no later than two poll intervals after the last completion AS OBSERVED by the client.
             seen = [e for e, acc, comp in zip(r["ends"], r["acc"], r["comp"]) if acc and comp]
             last_seen = max([last] + seen)
-            if r["exit"] > last_seen + PROMPT_TOL:
+            # (a process that never exited by itself has no exit instant: reported above, once)
+            if r["exit"] > last_seen + PROMPT_TOL and r["code"] != -1000:
                 ctx.violation("exit-not-prompt", "everything completed at %.2f s (observed: %.2f s) but the process exited at %.2f s" % (last / SEC, last_seen / SEC, r["exit"] / SEC), case)
             if r["exit"] < last - MARGIN:
                 ctx.violation("exit-before-drained", "the process exited before the last accepted request completed", case)
@@ -263,6 +279,9 @@ def run(ctx):
                 "rotation in the wait-before period} x {login in flight at the signal and answered in the drain, login inside the wait-before period, session refresh "
                 "accepted in the wait-before period and answered in the drain, logout, proxied request, login / logout / refresh after the close}; a login whose token "
                 "exchange outlasts the graceful period; "
+                "deployment dimension: (wait-before, graceful) in {(0,1s),(0.5s,2s)} x {tracing off, tracing on with the collector endpoint a closed port, tracing on with a collector "
+                "that accepts and never answers} x {in-flight request that cannot finish (forced exit), in-flight request completing in the drain}, each with a request that "
+                "completed 400 ms before the signal (finished spans queued in the exporter); "
                 "thorough tier adds 96 random request mixes (half of the requests of a back-channel kind), half of them with 1-3 further signals. distinct_nontrivial = distinct (setting, accepted vector, "
                 "completed vector, exit status) signatures")
     ctx.assumptions += [
@@ -274,6 +293,9 @@ def run(ctx):
         "the channel is read once; the Go runtime's delivery (non-blocking send, default disposition of unregistered signals) is exercised, not proved; "
         "c19_first_signal_only: the model's outcome does not depend on further registered signals",
         "hijacked connections (WebSocket upgrades) are not tracked by Shutdown and are outside the model",
+        "tracing: the model's timeline does not depend on the deployment's OpenTelemetry setting (the model ignores that input); the binary is run with tracing off, "
+        "with an unreachable collector and with a collector that never answers, and compared with the same timeline; a collector that answers is not run "
+        "(no OTLP collector in the harness)",
         "request kinds: the model does not distinguish them (a request = arrival + service time); for a login / session refresh the service time is the "
         "time the fake provider's token endpoint takes (the few ms of the login's redirect steps and of wonderwall's own processing are inside the 150 ms margins); "
         "'served' means answered with what that kind is answered with when the process is not shutting down (login: 302 + session cookie, or after a key "
